@@ -13,7 +13,8 @@ ALL_FEATURES = [(), ("checks",), ("no_copy_impls",), ("checks", "no_copy_impls")
 
 
 class Ctx:
-    def __init__(self, v, driver, tier, seed):
+    def __init__(self, v, driver, tier, seed, translator_ok=True):
+        self.translator_ok = translator_ok
         self.v = v
         self.driver = driver
         self.tier = tier
@@ -92,6 +93,10 @@ class Ctx:
                 # the python oracle and the L0 model state the property itself; for single-level
                 # (pure) scenarios the model is the specification
                 has_input = bool(omsg) or (0 in msgs) or (len(c.levels) == 1 and bool(msgs))
+                if not self.translator_ok and not omsg and c.levels == (2,):
+                    # the generated part of the model is missing (translator refusal): a disagreement with
+                    # it is a broken tie, not a failing input of the property
+                    has_input = False
                 desc = "%s [%s %s] %s: %s" % (what or c.tag, profile, "+".join(features) or "default", c.tag,
                                               omsg or msgs.get(0) or msgs.get(2))
                 small = self.minimize(c, binary, checks, nocopy, oracle)
